@@ -34,6 +34,23 @@ type Rev struct {
 	ExtraTrailer Dict
 	TableGapsAsFree bool // classic table: list gaps as free entries in one subsection instead of several subsections
 	ObjStmExtends bool // every object-stream container after the first carries /Extends <previous container> (ISO 32000-1 7.5.7)
+	Mutate *Mutation
+	// filled by WriteRevision: entries per object-stream container, xref stream entries
+	OutObjStmN   []int
+	OutXRefCount int
+}
+
+// Mutation is one semantic fault applied while writing (for C02): it damages
+// data that lives *inside* encoded streams — object-stream headers and
+// cross-reference stream entries — which byte-level faults cannot address,
+// and keeps everything else (offsets, lengths) consistent.
+type Mutation struct {
+	Kind  string // objstm-off | objstm-num | objstm-first | objstm-n | xref-field
+	Cont  int    // container index within the revision (objstm-*)
+	Index int    // header entry index / xref entry index
+	Field int    // xref-field: 0 type, 1 field1, 2 field2
+	Rel   string // "" absolute | "bodylen" (decoded object data length) | "datalen" (whole decoded stream) | "filesize" (offset of the xref section)
+	Value int64  // added to the base selected by Rel
 }
 
 // File assembles a PDF file.
@@ -160,7 +177,7 @@ func streamDict(s *Stream, encodedLen int) Dict {
 }
 
 func parmsOf(st FilterStage) string {
-	if st.Kind == "Fl" && st.Pred >= 10 {
+	if st.Kind == "Fl" && (st.Pred >= 10 || st.Pred == 1) {
 		return "dict"
 	}
 	if st.Parms == "" {
@@ -172,6 +189,9 @@ func parmsOf(st FilterStage) string {
 func parmsValue(st FilterStage) any {
 	if st.Kind == "Fl" && st.Pred >= 10 {
 		return Dict{{"Predictor", st.Pred}, {"Columns", st.Cols}}
+	}
+	if st.Kind == "Fl" && st.Pred == 1 {
+		return Dict{{"Predictor", 1}} // "no prediction", written out explicitly
 	}
 	if st.Parms == "null" {
 		return nil
@@ -333,15 +353,52 @@ func (f *File) WriteRevision(rv *Rev) {
 			sub.Obj(o.Obj)
 			sub.Buf.WriteString(sub.EOL)
 		}
-		var head bytes.Buffer
+		hnums := make([]int64, len(c.objs))
+		hoffs := make([]int64, len(c.objs))
 		for i, o := range c.objs {
-			fmt.Fprintf(&head, "%d %d ", o.Num, offsIn[i])
+			hnums[i], hoffs[i] = int64(o.Num), int64(offsIn[i])
+		}
+		contIdx := len(rv.OutObjStmN)
+		rv.OutObjStmN = append(rv.OutObjStmN, len(c.objs))
+		mut := rv.Mutate
+		if mut != nil && mut.Cont != contIdx {
+			mut = nil
+		}
+		relBase := func(m *Mutation, headLen int) int64 {
+			switch m.Rel {
+			case "bodylen":
+				return int64(sub.Buf.Len())
+			case "datalen":
+				return int64(sub.Buf.Len() + headLen)
+			}
+			return 0
+		}
+		if mut != nil && mut.Index < len(c.objs) {
+			switch mut.Kind {
+			case "objstm-off":
+				hoffs[mut.Index] = relBase(mut, 0) + mut.Value
+			case "objstm-num":
+				hnums[mut.Index] = mut.Value
+			}
+		}
+		var head bytes.Buffer
+		for i := range c.objs {
+			fmt.Fprintf(&head, "%d %d ", hnums[i], hoffs[i])
 		}
 		if r.Intn(2) == 0 {
 			head.WriteString(e.EOL)
 		}
 		raw := append(head.Bytes(), sub.Buf.Bytes()...)
-		st := &Stream{D: Dict{{"Type", Name("ObjStm")}, {"N", len(c.objs)}, {"First", head.Len()}}, Raw: raw, Filters: rv.ObjStmFilters, LenMode: "direct"}
+		nVal, firstVal := int64(len(c.objs)), int64(head.Len())
+		if mut != nil {
+			switch mut.Kind {
+			case "objstm-first":
+				firstVal = relBase(mut, head.Len()) + mut.Value
+			case "objstm-n":
+				nVal = mut.Value
+			}
+		}
+		st := &Stream{D: Dict{{"Type", Name("ObjStm")}, {"N", nVal}, {"First", firstVal}}, Raw: raw, Filters: rv.ObjStmFilters, LenMode: "direct"}
 		if rv.ObjStmExtends && prevCont > 0 {
 			st.D = append(st.D, KV{"Extends", RefN{prevCont, 0}})
 		}
@@ -424,7 +481,7 @@ func (f *File) WriteRevision(rv *Rev) {
 		// widen fields if needed
 		need := func(v int64) int {
 			k := 1
-			for v >= 1<<(8*uint(k)) {
+			for k < 8 && (v < 0 || v >= 1<<(8*uint(k))) {
 				k++
 			}
 			return k
@@ -437,6 +494,23 @@ func (f *File) WriteRevision(rv *Rev) {
 			if k := need(en.f2); k > w[2] {
 				w[2] = k
 			}
+		}
+		rv.OutXRefCount = len(nums)
+		if m := rv.Mutate; m != nil && m.Kind == "xref-field" && m.Index < len(nums) {
+			en := ents[nums[m.Index]]
+			v := m.Value
+			if m.Rel == "filesize" {
+				v += xoff
+			}
+			switch m.Field {
+			case 0:
+				en.typ = int(v)
+			case 1:
+				en.f1 = v
+			default:
+				en.f2 = v
+			}
+			ents[nums[m.Index]] = en
 		}
 		var idx Arr
 		var data []byte
